@@ -119,6 +119,9 @@ EXTRA_INPUTS = [
     ("list_none", lambda: [None, 2]),
     ("list_one", lambda: [5]),
     ("list_bools", lambda: [True, False]),
+    ("iter1", lambda: iter([1])),
+    ("iter0", lambda: iter([])),
+    ("tuple4", lambda: (1, 2, 3, 4)),
 ]
 
 
@@ -216,6 +219,7 @@ def ghost_env(bound):
         "trail_top": lambda e: (list(get_trail(e)) or [Undefined()])[0],
         "has_key": lambda d, k: _hashable(k) and k in d,
         "forall_val": None,
+        "same_items": lambda a, b: type(a) is tuple and list(a) == _elems_of(b),
         "err_rank": lambda e: 2 * getattr(e, "_stub_call_index", -10 ** 6) + (0 if isinstance((list(get_trail(e)) or [None])[0], _itemkey()) else 1),
     }
     return env
@@ -255,9 +259,14 @@ class Scenario:
         return f"input={self.input_name} stubs={self.stub_names}"
 
 
+SEQ_N = 2
+
+
 def native_values(kind, name, stubs):
     if isinstance(kind, tuple) and kind[0] == "const":
         return kind[1]
+    if isinstance(kind, str) and kind.startswith("seq:"):
+        return tuple(stubs[f"{name}#{i}"] for i in range(SEQ_N))
     if kind in ("LD", "ANY"):
         return stubs[name]
     if kind == "DUMP":
@@ -291,7 +300,19 @@ def stub_params(c, label):
         kinds.update(c.via.kwargs)
         kinds.update(c.via.instance_kwargs.get(label, {}))
     kinds.update(c.ghosts)
-    return [n for n, k in kinds.items() if k in ("LD", "DUMP", "ANY")], kinds
+    names = []
+    flat = {}
+    for n, k in kinds.items():
+        if k in ("LD", "DUMP", "ANY"):
+            names.append(n)
+            flat[n] = k
+        elif isinstance(k, str) and k.startswith("seq:"):
+            for i in range(SEQ_N):
+                names.append(f"{n}#{i}")
+                flat[f"{n}#{i}"] = k[4:]
+    kinds = dict(kinds)
+    kinds.update(flat)
+    return names, kinds
 
 
 def scenarios(c, label, limit=None, seed=0):
@@ -341,6 +362,7 @@ def run_scenario(c, mod, sc: Scenario, clauses, param="data"):
     if recorded is not None:
         rec = recorded
         env["elems"] = lambda x, rec=rec, data=data: rec if x is data else _elems_of(x)
+        env["same_items"] = lambda a, b, rec=rec, data=data: type(a) is tuple and list(a) == (rec if b is data else _elems_of(b))
     for gname in c.ghosts:
         if gname in sc.stubs:
             env[gname] = sc.stubs[gname]
